@@ -263,14 +263,16 @@ def main():
             ("cached_fn(a) is None", {}), ("ident_fn(cached_fn) is None", {}), ("tbl['c'] is None", {}), ("Cls2.sm is None", {}), ("tbl['s'] is None", {}),
             # iterators made inside the condition: their default representation is an address
             ("zip(tbl, tbl) is None", {}), ("map(ident_fn, [a]) is None", {}), ("iter([a]) is None", {}), ("reversed([a]) is None", {}),
-            ("enumerate([a]) is None", {}), ("filter(None, [a]) is None", {}), ("ident_fn(v for v in [a]) is None", {})):
+            ("enumerate([a]) is None", {}), ("filter(None, [a]) is None", {}), ("ident_fn(v for v in [a]) is None", {}),
+            # loop variables of a traced all(...) which are functions / classes
+            ("all(p(a) > 5 for p in (ident_fn,))", {}), ("all(k is None for k in (Cls2, a))", {})):
         src2 = "import functools\nimport icontract\ndef ident_fn(v):\n    return v\n@functools.lru_cache(maxsize=None)\ndef cached_fn(v):\n    return v\nclass Cls2:\n    @staticmethod\n    def sm():\n        return 1\nclass Tbl(dict):\n    def __repr__(self):\n        return 'Tbl'\n@icontract.require(lambda a, tbl: {})\ndef f(a, tbl, other=3):\n    return 1\n".format(cond_src)
         ns2 = core.load_source(src2, "c20u")
         msg = violation_message(ns2["f"], a=1, tbl=ns2["Tbl"](f=ns2["ident_fn"], k=ns2["Cls2"], c=ns2["cached_fn"], s=vars(ns2["Cls2"])["sm"]))
         is_iter = cond_src.split("(")[0] in ("zip", "map", "iter", "reversed", "enumerate", "filter") or "for v in" in cond_src
         out[("iter_result:" if is_iter else "unrep_result:") + cond_src] = msg
         body = msg.split("\n", 1)[-1]
-        lines_ = [ln for ln in body.split("\n")[1:] if " was " in ln and not ln.startswith("tbl was")]
+        lines_ = [ln for ln in body.split("\n")[1:] if (" was " in ln or (ln.startswith("  ") and " = " in ln)) and not ln.startswith("tbl was")]
         for ln in lines_:
             if any(b in ln for b in ("<function", "<class", "<module", "<built-in", "<bound method", "<method", "<slot wrapper", "lru_cache_wrapper", "<staticmethod", "<zip", "<map", "iterator object", "<reversed", "<enumerate", "<filter", "<generator")):
                 local.append({"symptom": "unrepresentable_value_listed", "scenario": "result_is_iterator" if is_iter else "result_of_call_or_subscript",
